@@ -704,7 +704,7 @@ func runBoundedOverlay(c *Ctx, prop, tier, pkg, replayDir string, extra map[stri
 		"command": "VERIF_PROPERTY=" + prop + " VERIF_TIER=" + tier + " " + strings.Join(cmd.Args, " "),
 		"bound":   "every repository over {2 configs, 2 layers, image inner, image outer listing inner as a layer, index of inner, artifact with subject inner or a layer} x top-level state absent/untagged/tagged x 2 entry orders x 8 policies x (blob of the inner image deleted behind the index or not), grace period off: 2160 repositories per store; quick: memory store, thorough: memory and directory store",
 		"seconds": round3(time.Since(t0).Seconds()),
-		"decides": "closure of the retention rules (C05) / garbage removed, no entry without content, second pass idle (C06), which the step contracts on repoGarbageCollect do not decide"}
+		"decides": "what the contracts on repoGarbageCollect do not decide (DESIGN.md 12.1, 12.8): convergence (a second pass changes nothing), removal of emptied repositories, the history class of known finding D20; and, as a second opinion next to the proof, the closure of the retention rules and the sweep on this universe"}
 	var fails [][2]string
 	done := false
 	for _, l := range strings.Split(text, "\n") {
